@@ -8,6 +8,8 @@ PROP = 'C02'
 
 def run(ctx):
     quick = ctx.quick()
+    from props import asm_hmac
+    asm_hmac.run_family(ctx, 'C02')       # HMAC managers (machine code) first: seconds
     for f in ('lib/include/sha_mb_mgr.h', 'lib/sse_t1/sha_mb_sse.c', 'lib/x86_64/ooo_mgr_reset.c'):
         ctx.note_source(f)
     small = {1: [0, 1, 55, 56, 64, 119], 224: [0, 55, 56, 64], 256: [0, 1, 55, 56, 64, 119], 384: [0, 111, 112, 128], 512: [0, 1, 111, 112, 128]}
@@ -20,7 +22,7 @@ def run(ctx):
     ctx.assume('the multi-buffer block function is a per-lane compression over an uninterpreted function that advances data_ptr (what the SIMD rounds compute is outside solver reach); '
                'the reference is Merkle-Damgard padding folded with the same function')
     ctx.assume('message lengths are case-split, one query each (a symbolic length in one query does not finish: probe in DESIGN §4 C02)')
-    ctx.outside += ['HMAC/CMAC/XCBC/CCM/Poly1305/GHASH/ZUC/SNOW3G/KASUMI/SM3/CRC outputs (assembly managers and kernels: not built in this session)',
+    ctx.outside += ['HMAC managers of the SHA-NI variants (sse_t2, avx2_t4) and HMAC-SM3; CMAC/XCBC/CCM/Poly1305/GHASH/ZUC/SNOW3G/KASUMI/SM3/CRC outputs (assembly managers and kernels: not built in this session)',
                     'the SIMD SHA round functions on symbolic data', 'lengths not listed']
     h = os.path.join(VERIF, 'cbmc', 'sha_mb.c')
     bases = {}
